@@ -255,3 +255,4 @@ def warm_start_contracts(module, cls, copied_maps, derived_maps=(), props='C13',
                 # every other arm (in particular every trained arm) is left untouched
                 '[C13,untouched] forall_arm(lambda a: implies(mem(self.arms, a) and not inkeys(%s, a), %s))'
                 % (MAPPING, same_a)])
+klass('StandardScaler', fields={'state': 'opaque'})
